@@ -151,10 +151,22 @@ def check_exact_conversion(ck, rule, prog, body_id, what):
     if b is None:
         ck.undecided(rule, "exact-conversion/" + str(body_id).rsplit("::", 1)[-1], "conversion helper %s not found" % body_id)
         return
+    bad = _inexact_steps(prog, b, 0)
+    ck.ob(rule, "exact-conversion/" + (b.short if b.impl_trait else b.short.rsplit("::", 1)[-1]), not bad, "%s %s" % (b.short, ("converts %s exactly or fails" % what) if not bad else ("is not an exact-or-fail conversion of %s: it %s - large values are silently changed instead of being rejected" % (what, "; ".join(bad[:2])))), where=b.where())
+
+
+def _inexact_steps(prog, b, depth):
     bad = []
     for fb in prog.family(b):
         for _, t in fb.calls():
             m = t.callee.method
+            tg = prog.bodies.get(t.callee.res or "")
+            if tg is not None and tg.kind in ("Fn", "AssocFn") and tg.id != b.id and depth < 3 and m not in EXACT_CONV_METHODS:
+                # a crate helper on the way (`Self::from_u32(..)`, `from_wide_int(n)`) is judged by the same rule
+                inner = _inexact_steps(prog, tg, depth + 1)
+                if inner:
+                    bad.append("calls `%s`, which %s" % (m, inner[0]))
+                continue
             if m in ("map", "map_err", "and_then", "ok", "ok_or", "ok_or_else") and re.search(r"std::(result::Result|option::Option)", t.callee.name or ""):
                 # combinators: what they apply must itself be an exact conversion (closures are members of the family and are
                 # examined like the body; function items are judged by their name)
@@ -179,7 +191,7 @@ def check_exact_conversion(ck, rule, prog, body_id, what):
                     bad.append("casts %s to %s (line %s)" % (src, dst, st.line))
             if st.k == "assign" and st.rv["k"] == "bin":
                 bad.append("computes with `%s` (line %s)" % (st.rv["op"], st.line))
-    ck.ob(rule, "exact-conversion/" + (b.short if b.impl_trait else b.short.rsplit("::", 1)[-1]), not bad, "%s %s" % (b.short, ("converts %s exactly or fails" % what) if not bad else ("is not an exact-or-fail conversion of %s: it %s - large values are silently changed instead of being rejected" % (what, "; ".join(bad[:2])))), where=b.where())
+    return bad
 
 
 def termid_display_width(prog):
@@ -203,7 +215,7 @@ def termid_display_width(prog):
     if not tmpl:
         return None
     args = [x[1] for x in tmpl if x[0] == "arg"]
-    if len(args) == 1 and args[0].get("width"):
+    if len(args) == 1 and args[0].get("width") and not args[0].get("width_arg"):
         return args[0]["width"]
     return None
 
